@@ -15,7 +15,7 @@ RULE = ('cases: seeded generators for (a) subsample on ordered observation grids
         '(kind, structural signature).')
 ASSUMPTIONS = ['report_times and times are ordered (documented domain)', 'PGF evaluation points lie in (0,1]',
                'estimate_R0 is only judged on graphs with at least one edge']
-REQUIRED = ['graphs_edited_in_place_between_calls', 'multigraph_inputs', 'subsample_reports_checked', 'time_shift_checked', 'pgf_points_checked', 'pnk_rows_checked', 'R0_checked',
+REQUIRED = ['subsample_mixed_type_series', 'graphs_edited_in_place_between_calls', 'multigraph_inputs', 'subsample_reports_checked', 'time_shift_checked', 'pgf_points_checked', 'pnk_rows_checked', 'R0_checked',
             'subsample_rejections_checked']
 BUDGET = {'quick': 120, 'thorough': 900}
 
@@ -51,7 +51,20 @@ def _subsample_case(case, res):
     times = _grid(r)
     m = len(times)
     nser = r.choice([1, 2, 3])
-    series = [[r.randint(0, 50) for _ in range(m)] for _ in range(nser)]
+    # value types: counts (int), fractions / ODE output (float), and plain lists mixing both (a fraction series starting at 1,
+    # a running mean initialised with 0): the output must carry the observed values unchanged
+    def _series():
+        vt = r.choice(['int', 'int', 'float', 'mixed', 'mixed_int_first'])
+        if vt == 'int':
+            return [r.randint(0, 50) for _ in range(m)]
+        if vt == 'float':
+            return [r.choice([0.125, 0.375, 0.5, 0.75, 2.25, 7.0]) * r.randint(0, 9) for _ in range(m)]
+        vals = [r.choice([r.randint(0, 5), r.randint(0, 40) / 8.0]) for _ in range(m)]
+        if vt == 'mixed_int_first':
+            vals[0] = r.choice([0, 1])
+        bump(res, 'subsample_mixed_type_series')
+        return vals
+    series = [_series() for _ in range(nser)]
     # report times: mix of event times, midpoints, beyond end, repeated
     pool = list(times) + [t + 0.1 for t in times] + [times[-1] + 1, times[-1] + 7.5, times[0]]
     k = r.randint(1, 12)
@@ -61,7 +74,7 @@ def _subsample_case(case, res):
         reports = sorted([times[0] - r.choice([0.001, 1, 3.5])] + reports)
     as_array = r.random() < 0.5
     T = np.array(times) if as_array else list(times)
-    Sr = [np.array(s) if as_array else list(s) for s in series]
+    Sr = [np.array(s) if (as_array and all(type(x) is type(s[0]) for x in s)) else list(s) for s in series]
     R = np.array(reports) if r.random() < 0.5 else list(reports)
     try:
         out = EoN.subsample(R, T, *Sr)
